@@ -190,6 +190,8 @@ def _struct_body(spec, ctl, log):
             op = rng.choice(['+', '-', '*', '+', '*'])
             if isinstance(a, float) and isinstance(b, float):
                 a = pick_ar()
+            if rng.random() < 0.2:
+                b = a                      # the same signal as both operands
             v = a + b if op == '+' else a - b if op == '-' else a * b
             push(v)
         elif r < 0.50:
@@ -597,6 +599,13 @@ def check_reader(data, d, sd, params, log=None):
             fail('C02.consistent', 'C02.consistent:io-units',
                  'In/Out units of the file that the source does not create',
                  observed=extra, expected=exp)
+        # output units have side effects and are never eliminated: each one the
+        # source creates has to be among the units the reader recovers
+        lost = [e for e in rest if e[0] in OUT_FIXED]
+        if lost:
+            fail('C02.reader', 'C02.reader:io-units-lost',
+                 'output bus units the source creates that neither the file nor '
+                 'the reader shows', observed=got, expected=exp)
     return out
 
 
